@@ -59,15 +59,78 @@ def _nested_join(t):
     return None
 
 
+def _opt_agg(x):
+    x = mir.strip_refs(strip(x))
+    if isinstance(x, tuple) and x and x[0] == "agg" and x[3] in ("Some", "None"):
+        return x[3]
+    return None
+
+
+def static_cond(c):
+    """the label a condition is known to take, when it only looks at a literal: is_none/is_some/discr of Some{..}/None,
+    a constant"""
+    c = strip(c)
+    if not isinstance(c, tuple) or not c:
+        return None
+    if c[0] == "const" and c[2] in ("0", "1"):
+        return c[2]
+    if c[0] == "un" and c[1] == "Not":
+        v = static_cond(c[2])
+        return None if v is None else ("1" if v == "0" else "0")
+    if mir.is_call(c) and c[1].name in ("is_none", "is_some") and c[2]:
+        k = _opt_agg(c[2][0])
+        if k is not None:
+            return "1" if (k == "None") == (c[1].name == "is_none") else "0"
+    if c[0] == "discr":
+        k = _opt_agg(c[1])
+        if k is not None:
+            return "1" if k == "Some" else "0"
+    return None
+
+
+def _label_matches(lab, v):
+    if lab == v:
+        return True
+    if isinstance(lab, tuple) and lab and lab[0] == "not":
+        return v not in lab[1]
+    if isinstance(lab, tuple) and lab and lab[0] == "in":
+        return v in lab[1]
+    return False
+
+
 def alts(te, t, facts=(), depth=0):
-    """(leaf, facts) for every alternative of a gated term; facts = ((cond term, value), ..).  A join inside a leaf
-    (`Some{γ(c | a, b)}`) is distributed outward; alternatives that contradict the facts collected so far are dropped;
-    a block entered along several edges contributes one alternative per edge (`A | B => ..` or-patterns)."""
-    if depth > 12:
+    """(leaf, facts) for every alternative of a gated term; facts = ((cond term, value), ..).  Joins inside a leaf
+    (`Some{γ(c | a, b)}`) and inside a condition are distributed outward; conditions that only look at a literal are
+    decided; alternatives that contradict the facts collected so far are dropped; a block entered along several edges
+    contributes one alternative per edge (`A | B => ..` or-patterns)."""
+    from .canon import _replace
+    if depth > 14:
         yield t, facts
         return
     if isinstance(t, tuple) and t and t[0] == "gamma":
+        cj = t[1] if (isinstance(t[1], tuple) and t[1] and t[1][0] in ("gamma", "phi")) else _nested_join(t[1])
+        if cj is not None:
+            # a join inside the condition: fix its alternative first (throughout the term)
+            arms = cj[2]
+            for lab, v in arms:
+                ways = [[]]
+                if cj[0] == "phi" and isinstance(lab, int):
+                    ways = te.entry_guards(lab)
+                for fs in ways:
+                    f2 = tuple((c, val) for c, val, _, _ in fs)
+                    if cj[0] == "gamma":
+                        if not consistent(facts, cj[1], lab):
+                            continue
+                        f2 = ((cj[1], lab),)
+                    elif not all(consistent(facts, c, val) for c, val in f2):
+                        continue
+                    for x in alts(te, _replace(t, lambda y: y == cj, v), facts + f2, depth + 1):
+                        yield x
+            return
+        known = static_cond(t[1])
         for lab, v in t[2]:
+            if known is not None and not _label_matches(lab, known):
+                continue
             if consistent(facts, t[1], lab):
                 for x in alts(te, v, facts + ((t[1], lab),), depth + 1):
                     yield x
@@ -85,24 +148,36 @@ def alts(te, t, facts=(), depth=0):
     if j is None:
         yield t, facts
         return
-    from .canon import _replace
     if j[0] == "gamma":
-        for lab, v in j[2]:
-            if consistent(facts, j[1], lab):
-                for x in alts(te, _replace(t, lambda y: y is j, v), facts + ((j[1], lab),), depth + 1):
-                    yield x
+        for x in alts(te, ("gamma", j[1], tuple((lab, _replace(t, lambda y: y == j, v)) for lab, v in j[2])), facts, depth + 1):
+            yield x
     else:
         for p, v in j[2]:
             ways = te.entry_guards(p) if isinstance(p, int) else [[]]
             for fs in ways:
                 f2 = tuple((c, val) for c, val, _, _ in fs)
                 if all(consistent(facts, c, val) for c, val in f2):
-                    for x in alts(te, _replace(t, lambda y: y is j, v), facts + f2, depth + 1):
+                    for x in alts(te, _replace(t, lambda y: y == j, v), facts + f2, depth + 1):
                         yield x
 
 
+VIEWS = ("collect", "iter", "into_iter", "as_slice", "copied", "cloned", "to_vec", "deref", "as_ref", "borrow")
+
+
+def _unview(t):
+    """the same collection seen through element-preserving views (`x.iter().collect()`, `v.as_slice()`) is x"""
+    if not isinstance(t, tuple) or not t:
+        return t
+    if t[0] == "call":
+        args = tuple(_unview(a) for a in t[2])
+        if t[1].name in VIEWS and len(args) == 1 and (not t[1].local or t[1].name in ("iter", "into_iter")):
+            return args[0]
+        return (t[0], t[1], args) + tuple(t[3:])
+    return tuple(_unview(a) if isinstance(a, tuple) else a for a in t)
+
+
 def key_of(t):
-    return show(mir.strip_refs(strip(t)), -20)
+    return show(_unview(mir.strip_refs(strip(t))), -20)
 
 
 def full_key(te, t, depth=0):
@@ -186,7 +261,39 @@ def fd1(prog, out):
     leaf_cut = "(arg1 as Leaf).cutset"
     errs = []
     n_alt = 0
-    for leaf, facts in alts(te, te.ret):
+    from .canon import subst
+
+    def through_helpers(leaf, facts, depth=2):
+        """a leaf that is the call of a private helper assembling the result (`cutset_spine(cutset, below)`): the helper's own
+        alternatives, each under the helper's own branch facts, with the arguments in place"""
+        l0 = strip(leaf)
+        if depth and mir.is_call(l0) and (l0[1].local or getattr(l0[1], "res_local", False)) and \
+                l0[1].name not in ("from_dtree", "right_linear_c", "new_node", "new_leaf", "right_linear"):
+            hs = [h for h in prog.resolve(l0[1]) if "{closure" not in h.npath]
+            if len(hs) == 1 and hs[0].terms.ret is not None and hs[0] is not fn:
+                ps = {i + 1: a for i, a in enumerate(l0[2])}
+                for hl, hf in alts(hs[0].terms, hs[0].terms.ret):
+                    hl2 = subst(hl, ps)
+                    hf2 = tuple((subst(c, ps), v) for c, v in hf)
+                    # conditions that became decidable by the substitution (is_none(Some{..})) prune the alternative
+                    dead = False
+                    for c, v in hf2:
+                        k = static_cond(c)
+                        if k is not None and not _label_matches(v, k):
+                            dead = True
+                    if dead or not all(consistent(facts, c, v) for c, v in hf2):
+                        continue
+                    for x in alts(te, hl2, facts + hf2):
+                        for y in through_helpers(x[0], x[1], depth - 1):
+                            yield y
+                return
+        yield leaf, facts
+
+    def all_alts():
+        for leaf, facts in alts(te, te.ret):
+            for x in through_helpers(leaf, facts):
+                yield x
+    for leaf, facts in all_alts():
         n_alt += 1
         variant = None
         for c, v in facts:
